@@ -583,28 +583,39 @@ def _chunks(items, per):
     return [items[i : i + per] for i in range(0, len(items), per)] or [[]]
 
 
+PART = 200  # list literals are split into parts: long literals exceed Lean's elaborator recursion depth
+
+
+def _list_def(name, ty, cells, per):
+    cells = list(cells)
+    if len(cells) <= PART:
+        if not cells:
+            return f"def {name} : List {ty} := []\n"
+        rows = [", ".join(row) for row in _chunks(cells, per)]
+        return f"def {name} : List {ty} := [\n  " + ",\n  ".join(rows) + "]\n"
+    out = []
+    parts = _chunks(cells, PART)
+    for k, part in enumerate(parts):
+        rows = [", ".join(row) for row in _chunks(part, per)]
+        out.append(f"def {name}_{k} : List {ty} := [\n  " + ",\n  ".join(rows) + "]\n")
+    # right-nested appends keep the kernel's evaluation linear
+    expr = f"{name}_{len(parts) - 1}"
+    for k in range(len(parts) - 2, -1, -1):
+        expr = f"{name}_{k} ++ ({expr})" if k < len(parts) - 2 else f"{name}_{k} ++ {expr}"
+    out.append(f"def {name} : List {ty} :=\n  {expr}\n")
+    return "\n".join(out)
+
+
 def _nat_list(name, xs, per=24):
-    xs = list(xs)
-    if not xs:
-        return f"def {name} : List Nat := []\n"
-    rows = [", ".join(str(x) for x in row) for row in _chunks(xs, per)]
-    return f"def {name} : List Nat := [\n  " + ",\n  ".join(rows) + "]\n"
+    return _list_def(name, "Nat", [str(x) for x in xs], per)
 
 
 def _pair_list(name, ps, per=10):
-    ps = list(ps)
-    if not ps:
-        return f"def {name} : List (Nat × Nat) := []\n"
-    rows = [", ".join(f"({a},{b})" for a, b in row) for row in _chunks(ps, per)]
-    return f"def {name} : List (Nat × Nat) := [\n  " + ",\n  ".join(rows) + "]\n"
+    return _list_def(name, "(Nat × Nat)", [f"({a},{b})" for a, b in ps], per)
 
 
 def _str_list(name, xs, per=4):
-    xs = list(xs)
-    if not xs:
-        return f"def {name} : List String := []\n"
-    rows = [", ".join(_lean_str(x) for x in row) for row in _chunks(xs, per)]
-    return f"def {name} : List String := [\n  " + ",\n  ".join(rows) + "]\n"
+    return _list_def(name, "String", [_lean_str(x) for x in xs], per)
 
 
 def analyse(repo) -> dict:
